@@ -613,8 +613,8 @@ class Sem:
                     if s["k"] in ("assign", "setdiscr"):
                         ls.add(s["place"]["l"])
                         rv = s.get("rv")
-                        if rv and rv["k"] in ("ref", "rawptr") and rv.get("mut", True):
-                            ls.add(rv["place"]["l"])
+                        if rv and rv["k"] in ("ref", "rawptr") and rv.get("mut", True) and not any(pe["k"] == "deref" for pe in rv["place"]["p"]):
+                            ls.add(rv["place"]["l"])      # `&mut x` / `&mut x.f`: x may be written through the borrow (not: `&mut *p`)
                 t = blk["term"]
                 if t["k"] == "call":
                     ls.add(t["dest"]["l"])
